@@ -18,6 +18,7 @@ LIBRARY = [
                                                                           ["O", 2]],
     [["Fe{2+}", 1], ["O{2-}", 1]], [["Ni", 1]], [["B[10]", 4], ["C", 1]], [["Cd", 1], ["Te", 1]], [["C", 8], ["H", 8]],
     [["Gd[157]", 1], ["Gd[155]", 1]], [["Li[6]", 1], ["F", 1]], [["Ti", 1]], [["V", 1]],
+    [["Sm", 2], ["O", 3]], [["Sm", 1]],      # natural Sm: the one tabulated b_c that is exactly 0 (and energy dependent)
 ]
 
 
